@@ -36,7 +36,74 @@ def _inlinable(h):
         d = _desugar_guards(body)
         if d is not None:
             return d, None
+    # value-returning helper whose returns are all in tail position (after turning guard clauses into if/else):
+    # every `return e` becomes an assignment to a result variable
+    if all(r.value is not None for r in rets):
+        t = _tailify([clone(x) for x in body])
+        if t is not None:
+            _counter[0] += 1
+            rv = "__ret%d" % _counter[0]
+            if _returns_to_assign(t, rv):
+                return t, ast.Name(id=rv, ctx=ast.Load())
     return None
+
+
+def _tailify(stmts):
+    """Rewrite `if c: ...return` followed by more statements as if/else so that every return ends its block; None if impossible."""
+    for i, st in enumerate(stmts):
+        if isinstance(st, ast.Return):
+            return stmts[:i + 1] if i == len(stmts) - 1 else None
+        if isinstance(st, ast.If):
+            body_ret = _ends_with_return(st.body)
+            else_ret = _ends_with_return(st.orelse) if st.orelse else False
+            has_ret = any(isinstance(n, ast.Return) for n in ast.walk(st))
+            if not has_ret:
+                continue
+            if i == len(stmts) - 1:
+                b = _tailify(st.body)
+                o = _tailify(st.orelse) if st.orelse else []
+                if b is None or o is None:
+                    return None
+                st.body, st.orelse = b, o
+                return stmts
+            if body_ret and not st.orelse:
+                rest = _tailify(stmts[i + 1:])
+                b = _tailify(st.body)
+                if rest is None or b is None:
+                    return None
+                st.body, st.orelse = b, rest
+                return stmts[:i + 1]
+            if body_ret and else_ret:
+                return None if i != len(stmts) - 1 else stmts
+            return None
+        if any(isinstance(n, ast.Return) for n in ast.walk(st)):
+            return None           # return inside a loop / try / with: not expressible as a tail assignment
+    return stmts
+
+
+def _ends_with_return(stmts):
+    if not stmts:
+        return False
+    last = stmts[-1]
+    if isinstance(last, ast.Return):
+        return True
+    if isinstance(last, ast.If) and last.orelse:
+        return _ends_with_return(last.body) and _ends_with_return(last.orelse)
+    return False
+
+
+def _returns_to_assign(stmts, rv):
+    """In a tailified body replace the returns by `rv = value`; False if some path ends without returning."""
+    if not stmts:
+        return False
+    last = stmts[-1]
+    if isinstance(last, ast.Return):
+        stmts[-1] = ast.copy_location(ast.Assign(targets=[ast.Name(id=rv, ctx=ast.Store())], value=last.value), last)
+        return not any(isinstance(n, ast.Return) for x in stmts[:-1] for n in ast.walk(x))
+    if isinstance(last, ast.If) and last.orelse:
+        return _returns_to_assign(last.body, rv) and _returns_to_assign(last.orelse, rv) and \
+            not any(isinstance(n, ast.Return) for x in stmts[:-1] for n in ast.walk(x))
+    return False
 
 
 def _desugar_guards(body):
